@@ -225,6 +225,16 @@ func observe(b baggage.Baggage) (model, []string) {
 			problems = append(problems, fmt.Sprintf("Member(%q) = %s but Members() has %s", k, one.render(), mm.render()))
 		}
 	}
+	// "If there is no list-member matching the passed key the returned Member
+	// will be a zero-value Member."
+	for _, k := range []string{"", "no.such.key", "\x00"} {
+		if _, present := got[k]; present {
+			continue
+		}
+		if m := b.Member(k); m.Key() != "" || m.Value() != "" || len(m.Properties()) != 0 || m.String() != "" {
+			problems = append(problems, fmt.Sprintf("Member(%q) of a baggage without that key = %s, not the zero Member", k, fromMember(m).render()))
+		}
+	}
 	return got, problems
 }
 
